@@ -12,6 +12,19 @@ def control_values(limit_hint, rng):
     return vals
 
 
+def wide_values(orig, w):
+    """Width-aware control words: sign/top bits of the word set on the valid value, and counts whose product
+    with a small element size wraps around the word (or around 64 bits) to a small number."""
+    bits = 8 * w
+    vals = [orig ^ (1 << (bits - 1)), orig | (1 << (bits - 2)), orig ^ (1 << (bits - 3)), (1 << (bits - 1)) - 1,
+            1 << (bits - 1), (1 << bits) - 1, (1 << bits) - 2]
+    for span in set((bits, 64)) if w >= 4 else ():
+        for size in (2, 3, 4, 8, 12, 16, 24):
+            q = -(-(1 << span) // size)            # smallest n with n * size >= 2**span
+            vals += [q, q + 1, q + orig]
+    return [v for v in vals if 0 <= v < (1 << bits)]
+
+
 def mutations(data, spans, endian, rng, max_prefix=512, flips=24, doubles=8, other=None, limits=None,
               all_prefixes=True):
     """Yield (family, description, bytes)."""
@@ -36,7 +49,8 @@ def mutations(data, spans, endian, rng, max_prefix=512, flips=24, doubles=8, oth
         if k not in CONTROL:
             continue
         lim = (limits or {}).get(p)
-        for v in control_values(lim, rng):
+        orig = _struct.unpack(endian + FMTU[w], data[o:o + w])[0]
+        for v in control_values(lim, rng) + (wide_values(orig, w) if k in ('counter', 'sizer') else []):
             v &= (1 << (8 * w)) - 1
             b = bytearray(data)
             b[o:o + w] = _struct.pack(endian + FMTU[w], v)
